@@ -187,6 +187,15 @@ pub fn ilv_programs() -> Vec<Program> {
     v.push(mk("k:upsert(remove-ttl);await;get || {clock+7s;tick}", vec![put_ttl(1, 30, 5000)], vec![vec![ups(1, true, Some(30), None, true), Op::Await { call: 0 }, get(1)], vec![adv(7000), Op::Tick]]));
     v.push(mk("k:get;get || {clock+3s;tick} sweeping b", vec![put(1, 30), put_ttl(2, 30, 1000)], vec![vec![get(1), get(1)], vec![adv(3000), Op::Tick]]));
     v.push(mk("k:put(ttl 20s);await;get || {clock+3s;tick} sweeping b || get(b)", vec![put_ttl(2, 30, 1000)], vec![vec![put_ttl(1, 30, 20_000), Op::Await { call: 0 }, get(1)], vec![adv(3000), Op::Tick], vec![get(2)]]));
+    {
+        let mut p = mk("k:put_ttl(9s);await;upsert(v);get;upsert(remove-ttl);await;get || other:put_ttl(b);delete(b) || {clock+3s;tick}", vec![], vec![
+            vec![put_ttl(1, 30, 9000), Op::Await { call: 0 }, ups(1, true, None, None, false), get(1), ups(1, true, Some(30), None, true), Op::Await { call: 4 }, get(1)],
+            vec![put_ttl(2, 30, 1000), del(2)],
+            vec![adv(3000), Op::Tick],
+        ]);
+        p.thorough_only = true;
+        v.push(p);
+    }
     v
 }
 
@@ -201,7 +210,7 @@ pub fn def(ctx: &Ctx) -> PropertyDef {
         let name = seq_spec(ctx, shards).name;
         scenarios.push(seq_scenario(move |c| seq_spec(c, shards), &name));
     }
-    for p in ilv_programs() {
+    for p in crate::harness::ilv::for_tier(ilv_programs(), quick) {
         let three = p.threads.len() >= 3;
         scenarios.push({
                 let nthreads = p.threads.len();
